@@ -43,8 +43,11 @@ def one(d):
 with ThreadPoolExecutor(jobs) as ex:
     results = list(ex.map(one, seeds))
 path = "/verif/seeded/RESULTS.json"
-old = json.load(open(path)) if os.path.exists(path) else {}
-for name, prop, verdict, res in results:
-    print(f"{name:12s} {prop} {verdict:16s} " + " ".join(f"{p}:{v['exit']}:{','.join(v['keys'][:2])}" for p, v in res.items()))
-    old[name] = {"property": prop, "tier": tier, "verdict": verdict, "checks": res}
-json.dump(old, open(path, "w"), indent=1, sort_keys=True)
+import fcntl
+with open(path + ".lock", "w") as lk:
+    fcntl.flock(lk, fcntl.LOCK_EX)
+    old = json.load(open(path)) if os.path.exists(path) else {}
+    for name, prop, verdict, res in results:
+        print(f"{name:12s} {prop} {verdict:16s} " + " ".join(f"{p}:{v['exit']}:{','.join(v['keys'][:2])}" for p, v in res.items()))
+        old[name] = {"property": prop, "tier": tier, "verdict": verdict, "checks": res}
+    json.dump(old, open(path, "w"), indent=1, sort_keys=True)
